@@ -733,12 +733,14 @@ def apply_op(rm, op, inputs, probe=True):
         rs.cells.pop(op["name"], None)
         _drop_inputs(inputs, paths, op["name"])
     elif k == "rename_cells":
+        # only the definition is renamed; derived copies follow it, own cells of sub spaces keep their name
         rs = rm.get(op["space"])
+        paths = deriving_paths(rm, op["space"], op["name"])
+        if op["name"] in rs.cells:
+            rs.cells[op["name"]].name = op["new"]
+            rs.cells = collections.OrderedDict(
+                (op["new"] if n == op["name"] else n, c) for n, c in rs.cells.items())
         for s in [rs] + rm.subs_of(rs):
-            if op["name"] in s.cells:
-                s.cells[op["name"]].name = op["new"]
-                s.cells = collections.OrderedDict(
-                    (op["new"] if n == op["name"] else n, c) for n, c in s.cells.items())
             _drop_inputs(inputs, [s.path()], op["name"])
     elif k == "set_cached":
         rs = rm.get(op["space"])
